@@ -8,7 +8,8 @@ TLC:  MCSandbox over the LIVE universe (every name bound in each live configurat
       GenerateCallBySymbol + reserved words + repl commands, dumped by `zv sandbox -dump`): the derivation closure to
       depth 2 (quick) / 3 (thorough) with NoMinting / DeadStaysDead; a capability-minting route must be refuted
       (self-test); SandboxClosed is model-checked as a PREDICTION (candidates, never a verdict); TLC writes the probe
-      vectors configuration x name x route
+      vectors configuration x name x route x prelude (the script first binds the names the sandbox lacks itself:
+      def / defn / defmac) x process history (sandbox first | after an unsandboxed interpreter)
 bind: the harness renders every vector under 17 argument shapes and runs every probe on the real interpreter in a
       subprocess / on the real `zygo -sandbox` binary, in a throw-away directory with canaries (file secret, paths that
       must not appear, shell marker, environment secret, inotify), plus seeded grammar-generated programs; TLC validates
@@ -57,6 +58,8 @@ def run():
     thorough = vlib.tier() == "thorough"
     upath, u = _universe(zv, zygo)
     vlib.log("harness and cmd/zygo built, universe of %d names dumped (%.0fs)" % (len(u["names"]), time.time() - vlib.T0))
+    if u.get("unstable"):
+        vlib.log("dump: bindings of a sandboxed configuration differ after an unsandboxed interpreter was set up: %s" % u["unstable"][:8])
     vectors = os.path.join(vlib.scratch(), "vectors.ndjson")
     menv = {"VERIF_UNIVERSE": upath}
     venv = dict(menv, VERIF_VECTORS=vectors, VERIF_SB_ALLROUTES="1" if thorough else "0")
@@ -120,7 +123,7 @@ def run():
                     nontrivial.add((c["cfg"], e.get("text", c["id"])))
             elif live.get(c["id"]):
                 shapes.add(e["shape"])
-                nontrivial.add((c["cfg"], c["names"][0], c["route"], e["shape"]))
+                nontrivial.add((c["cfg"], c["names"][0], c["route"], e["shape"], c.get("pre", ""), c.get("hist", "")))
     unpredicted = sorted(observed - set(predicted))
     unobserved = sorted(set(predicted) - observed)
     nsand = {cfg: sum(1 for n in u["names"] if n["kind"][i] != "unbound" or n["mac"][i] or n["special"])
@@ -145,7 +148,12 @@ def run():
         "observed_with_events": ["%s:%s" % p for p in sorted(observed)],
         "observed_but_not_predicted": ["%s:%s" % p for p in unpredicted],
         "predicted_but_not_observed": ["%s:%s" % p for p in unobserved],
+        "bindings_depending_on_process_history": u.get("unstable", []),
     }
+    variants = {}
+    for c in cases.values():
+        k = "pre=%s hist=%s" % (c.get("pre") or "none", c.get("hist") or "first")
+        variants[k] = variants.get(k, 0) + 1
     cov = {
         "evaluations": probes,
         "distinct_nontrivial": len(nontrivial),
@@ -154,9 +162,13 @@ def run():
                 "callable), plus distinct generated programs that evaluated to a value; inputs: every name of the live universe "
                 "(bound in any configuration incl. the unsandboxed one, macros, special forms of GenerateCallBySymbol, reserved "
                 "words, repl commands) x every route (names a configuration cannot call: routes direct and sym only in the quick "
-                "tier) x 17 argument shapes x {bare, std, cmd}; the unsandboxed control for the known primitives; seeded "
+                "tier) x 17 argument shapes x {bare, std, cmd}; the same again after the script has bound the names the sandbox lacks itself "
+                "(quick: defn of every such name through the routes direct = earlier evaluations and eval = same text, defmac through "
+                "direct; thorough: def, defn, defmac through every route) and in a process where an unsandboxed interpreter was set up and used first and between "
+                "sessions (quick: every name, routes direct and sym; thorough: every route, also combined with the prelude); the unsandboxed control for the known primitives; seeded "
                 "grammar-generated programs (9 callee forms x up to 3 of 16 wrappers)",
         "cases": len(cases),
+        "cases_per_variant": variants,
         "universe_names": len(u["names"]),
         "callable_names": nsand,
         "special_forms": len(u["special"]),
